@@ -5,6 +5,9 @@ import (
 	"fmt"
 	"strings"
 
+	"github.com/verily-src/fhirpath-go/fhirpath"
+	"github.com/verily-src/fhirpath-go/fhirpath/evalopts"
+	"github.com/verily-src/fhirpath-go/fhirpath/system"
 	"github.com/verily-src/fhirpath-go/fhirpath/verifharness/core"
 	"github.com/verily-src/fhirpath-go/fhirpath/verifharness/fx"
 )
@@ -20,13 +23,13 @@ func init() {
 			"collection-valued / criterion arguments (where, select, all, exists, intersect, exclude, iif) are not 'single value required'",
 			"functions added to the table later are probed with integer arguments"},
 		Run:    runC07,
-		Checks: map[string]func(*core.Env, []json.RawMessage){"prog": replayC07},
+		Checks: map[string]func(*core.Env, []json.RawMessage){"prog": replayC07, "varprog": replayC07Var},
 		Threshold: func(m *core.Merged) []string {
 			var r []string
 			if m.Cover["func-empty-input"] < 60 {
 				r = append(r, fmt.Sprintf("only %d functions probed with empty input", m.Cover["func-empty-input"]))
 			}
-			for _, k := range []string{"op-empty", "concat", "arg-empty"} {
+			for _, k := range []string{"op-empty", "concat", "arg-empty", "var-then-empty"} {
 				if m.Cover[k] == 0 {
 					r = append(r, "never observed: "+k)
 				}
@@ -42,7 +45,7 @@ var emptyForms = []string{"{}", "Patient.photo", "%emptyc"}
 func c07Prog(env *core.Env, key, src, want string) {
 	defer env.In("prog", key, src, want)()
 	in, eo := stdInputs()
-	r := fx.Eval(env, src, in, buildCompileOpts("experimental"), eo)
+	r := fx.EvalK(env, "experimental", src, in, buildCompileOpts("experimental"), eo)
 	env.Case()
 	env.Distinct(key + "|" + src)
 	env.SampleSpread(src, map[string]string{"program": src, "expected": want, "observed": trunc(r.Short(), 100)})
@@ -134,6 +137,23 @@ func runC07(env *core.Env) {
 			c07Prog(env, "concat/both", e+" & "+e, "str:")
 		}
 	}
+	// the empty collection arriving through a variable that held a value in an earlier evaluation
+	for _, op := range []string{"*", "/", "div", "mod", "+", "-", "<", "<=", ">", ">=", "=", "!="} {
+		for _, o := range others[op] {
+			if mine() {
+				c07VarProg(env, "op"+op+"/left-var", "%v "+op+" "+o, o, "empty")
+			}
+			if mine() {
+				c07VarProg(env, "op"+op+"/right-var", o+" "+op+" %v", o, "empty")
+			}
+		}
+	}
+	if mine() {
+		c07VarProg(env, "polarity-", "-%v", "2", "empty")
+	}
+	if mine() {
+		c07VarProg(env, "index/idx", "%multi[%v]", "1", "empty")
+	}
 	// functions
 	for _, t := range readTable() {
 		sp := specByName(t.Name)
@@ -163,6 +183,34 @@ func runC07(env *core.Env) {
 				}
 			} else if env.Shard == 0 && ar == t.Min {
 				env.Cover("func-empty-input")
+			}
+			// a variable as input / argument: a value first, then empty
+			if !aggregate && recv != "" && !strings.Contains(recv, "$") {
+				if mine() {
+					c07VarProg(env, fmt.Sprintf("fn:%s/%d/input-var", t.Name, ar), fmt.Sprintf("%%v.%s(%s)", t.Name, strings.Join(args[:ar], ", ")), recv, "empty")
+				}
+			}
+			for pos := 0; pos < ar; pos++ {
+				single := sp == nil
+				if sp != nil {
+					for _, p := range sp.SingleArg {
+						if p == pos {
+							single = true
+						}
+					}
+				}
+				if !single || strings.Contains(args[pos], "$") {
+					continue
+				}
+				a2 := append([]string{}, args[:ar]...)
+				a2[pos] = "%v"
+				call := t.Name + "(" + strings.Join(a2, ", ") + ")"
+				if recv != "" {
+					call = recv + "." + call
+				}
+				if mine() {
+					c07VarProg(env, fmt.Sprintf("fn:%s/%d/arg%d-var", t.Name, ar, pos), call, args[pos], "empty-or-error")
+				}
 			}
 			// empty argument at each position
 			for pos := 0; pos < ar; pos++ {
@@ -194,6 +242,53 @@ func runC07(env *core.Env) {
 			}
 		}
 	}
+}
+
+// c07VarProg: `src` mentions %v; it is evaluated with a well-typed value first and with the empty collection
+// afterwards (the same source, hence - through fx.EvalK - also the same compiled expression).
+func c07VarProg(env *core.Env, key, src, valueSrc, want string) {
+	defer env.In("varprog", key, src, valueSrc, want)()
+	in, eo := stdInputs()
+	vr := fx.E(env, valueSrc)
+	if !vr.IsValue() || len(vr.Raw) != 1 {
+		env.Skip("argument-not-a-single-literal-value")
+		return
+	}
+	env.Case()
+	env.Cover("var-then-empty")
+	first := fx.EvalK(env, "experimental", src, in, buildCompileOpts("experimental"), append(append([]fhirpath.EvaluateOption{}, eo...), evalopts.EnvVariable("v", vr.Raw[0])))
+	if first.IsPanic() {
+		env.Violatef(fx.PanicSig("C07", first), "`%s` with %%v = %s => %s", src, valueSrc, first.Short())
+		return
+	}
+	r := fx.EvalK(env, "experimental", src, in, buildCompileOpts("experimental"), append(append([]fhirpath.EvaluateOption{}, eo...), evalopts.EnvVariable("v", system.Collection{})))
+	if r.IsPanic() {
+		env.Violatef(fx.PanicSig("C07", r), "`%s` with %%v = {} => %s", src, r.Short())
+		return
+	}
+	switch want {
+	case "empty":
+		if !r.Empty() {
+			kind := "value-instead-of-empty"
+			if r.IsError() {
+				kind = "error-instead-of-empty"
+			}
+			env.Violatef("C07/"+key+"/"+kind, "`%s` with %%v = {} (after %%v = %s gave %s): empty must propagate, observed %s", src, valueSrc, trunc(first.Short(), 60), trunc(r.Short(), 200))
+		}
+	case "empty-or-error":
+		if r.IsValue() && len(r.Items) > 0 {
+			env.Violatef("C07/"+key+"/fabricated-value", "`%s` with %%v = {} (after %%v = %s gave %s): an empty required argument must give empty or an error, observed %s", src, valueSrc, trunc(first.Short(), 60), trunc(r.Short(), 200))
+		}
+	}
+}
+
+func replayC07Var(env *core.Env, a []json.RawMessage) {
+	var key, src, vs, want string
+	json.Unmarshal(a[0], &key)
+	json.Unmarshal(a[1], &src)
+	json.Unmarshal(a[2], &vs)
+	json.Unmarshal(a[3], &want)
+	c07VarProg(env, key, src, vs, want)
 }
 
 // isPlaceholder: a table entry unknown to the specification list is treated as unimplemented
